@@ -39,6 +39,9 @@ type Case struct {
 	// (identical for all cases of a group).
 	Group      string
 	GroupNotes []string
+	// Embedded: the method is declared in an unmarked interface (ZzEmbedded, below interface Convergen) that
+	// interface Convergen embeds - it belongs to the converter's method set all the same.
+	Embedded bool
 }
 
 // Result is the observation of one case.
@@ -271,16 +274,37 @@ func render(opt *Options, dir, pkg string, cases []*Case) (files map[string]stri
 		body.WriteString("}\n\n")
 		line += 2
 	}
+	nEmb := 0
+	for _, c := range cases {
+		if c.Group == "" && c.Embedded {
+			nEmb++
+		}
+	}
 	if plain > 0 || len(groups) == 0 {
 		body.WriteString("type Convergen interface {\n")
 		line++
+		if nEmb > 0 {
+			body.WriteString("\tZzEmbedded\n")
+			line++
+		}
 		for _, c := range cases {
-			if c.Group == "" {
+			if c.Group == "" && !c.Embedded {
 				writeCase(c)
 			}
 		}
 	}
 	if plain > 0 || len(groups) == 0 {
+		body.WriteString("}\n")
+		line++
+	}
+	if nEmb > 0 {
+		body.WriteString("\n// ZzEmbedded is no converter interface itself.\ntype ZzEmbedded interface {\n")
+		line += 3
+		for _, c := range cases {
+			if c.Group == "" && c.Embedded {
+				writeCase(c)
+			}
+		}
 		body.WriteString("}\n")
 	}
 	setup.WriteString(body.String())
